@@ -63,7 +63,7 @@ IsRot(M) == /\ \A i \in 1..3 : M[i] \in Units
 (* src == [cls, R, p, dim, exc, verts]   (every field present for every class)                    *)
 (*   Cuboid          dim = <<dx,dy,dz>> (even)          exc = polarization                         *)
 (*   Cylinder        dim = <<d,h>> (even)               exc = polarization                         *)
-(*   CylinderSegment dim = <<r1,r2,h,f1,f2>> h even, f in units of 15 degrees, 0 < f2-f1 <= 24     *)
+(*   CylinderSegment dim = <<r1,r2,h,f1,f2>> h even, f in units of 15 degrees, 0 < f2-f1 <= 24, any turn *)
 (*   Sphere          dim = <<d>> (even)                 exc = polarization                         *)
 (*   Tetrahedron     verts = 4 local lattice points     exc = polarization                         *)
 (*   TriangularMesh  dim = <<dx,dy,dz>>: the 12-triangle mesh of that box (box-like mesh)          *)
@@ -110,7 +110,7 @@ WellFormedSrc(s) ==
        [] s.cls \in {"Cuboid", "TriangularMesh"} -> Len(s.dim) = 3 /\ \A k \in 1..3 : s.dim[k] > 0 /\ s.dim[k] % 2 = 0
        [] s.cls = "Cylinder" -> Len(s.dim) = 2 /\ \A k \in 1..2 : s.dim[k] > 0 /\ s.dim[k] % 2 = 0
        [] s.cls = "CylinderSegment" -> /\ Len(s.dim) = 5 /\ 0 <= s.dim[1] /\ s.dim[1] < s.dim[2] /\ s.dim[3] > 0 /\ s.dim[3] % 2 = 0
-                                       /\ s.dim[4] < s.dim[5] /\ s.dim[5] - s.dim[4] <= 24 /\ s.dim[4] >= -24 /\ s.dim[5] <= 24
+                                       /\ s.dim[4] < s.dim[5] /\ s.dim[5] - s.dim[4] <= 24 /\ s.dim[4] >= -72 /\ s.dim[5] <= 72        \* any section angles (the model: within +-3 turns)
        [] s.cls \in {"Sphere", "Circle"} -> Len(s.dim) = 1 /\ s.dim[1] > 0 /\ s.dim[1] % 2 = 0
        [] s.cls = "Tetrahedron" -> Len(s.verts) = 4 /\ SgnDet3(Sub3(s.verts[2], s.verts[1]), Sub3(s.verts[3], s.verts[1]), Sub3(s.verts[4], s.verts[1])) # 0
        [] s.cls = "Triangle" -> Len(s.verts) = 3 /\ Cross3(Sub3(s.verts[2], s.verts[1]), Sub3(s.verts[3], s.verts[1])) # Zero3
@@ -163,7 +163,8 @@ Adapted(s, ch) ==
     [] s.cls \in {"Sphere", "Dipole"} -> ch.type = "sph" /\ s.p = ch.p
     [] s.cls \in {"Tetrahedron", "Triangle"} -> AffAnchored(s, ch)
     [] OTHER -> FALSE
-Periodic(S) == UNION {{x - 24, x, x + 24} : x \in S}
+Turns == {-96, -72, -48, -24, 0, 24, 48, 72, 96}
+Periodic(S) == UNION {{x + t : t \in Turns} : x \in S}
 None3 == <<{}, {}, {}>>
 \* material surfaces (discontinuities of B or H) of an adapted body, as coordinate values per chart axis
 Surf(s, ch) ==
@@ -267,7 +268,7 @@ InsideAdapted(s, ch, lo, hi) ==
     [] s.cls \in {"Cuboid", "TriangularMesh"} -> \A k \in 1..3 : SetMin(S[k]) < lo[k] /\ hi[k] < SetMax(S[k])
     [] s.cls = "Cylinder" -> hi[1] < s.dim[1] \div 2 /\ -(s.dim[2] \div 2) < lo[3] /\ hi[3] < s.dim[2] \div 2
     [] s.cls = "CylinderSegment" -> s.dim[1] < lo[1] /\ hi[1] < s.dim[2] /\ -(s.dim[3] \div 2) < lo[3] /\ hi[3] < s.dim[3] \div 2
-                                     /\ (s.dim[5] - s.dim[4] = 24 \/ \E j \in {-24, 0, 24} : s.dim[4] + j < lo[2] /\ hi[2] < s.dim[5] + j)
+                                     /\ (s.dim[5] - s.dim[4] = 24 \/ \E j \in Turns : s.dim[4] + j < lo[2] /\ hi[2] < s.dim[5] + j)
     [] s.cls = "Sphere" -> hi[1] < s.dim[1] \div 2
     [] s.cls = "Tetrahedron" -> lo[1] > 0 /\ lo[2] > 0 /\ lo[3] > 0 /\ hi[1] + hi[2] + hi[3] < ch.n
     [] OTHER -> FALSE
